@@ -5,6 +5,7 @@ CONSTANTS
   MaxNonNone = 1
   MaxScopes = 2
   Dmarcs = {"off"}
+  ExtraV = {"rq"}
   Only1On = TRUE
   WithRemote = TRUE
   Kinds = {"pipe"}
